@@ -88,7 +88,8 @@ func WConfig(prop, tier string) *Config {
 		}
 	case "C09":
 		ops := []string{"perp_open_long_t1", "perp_open_long_atomcoll_t1", "perp_open_long_t3_x5", "perp_open_short_t2", "perp_open_short_t2_dust", "perp_topup_t1", "perp_close_half_t1", "perp_close_full_t1", "perp_close_full_t2", "perp_close_half_t2", "perp_update_tp_t1", "perp_update_sl_t1", "perp_bot_close_all",
-			"price_atom_4", "price_atom_3", "price_atom_6.5", "price_atom_8", "gap_1d", "gap_30d", "swap_in_p1_usdc_atom_L", "join_p1_all_t1", "exit_p1_10pct_lp1"}
+			"price_atom_4", "price_atom_3", "price_atom_6.5", "price_atom_8", "gap_1d", "gap_30d", "swap_in_p1_usdc_atom_L", "join_p1_all_t1", "exit_p1_10pct_lp1",
+			"perp_open_long_t3_huge", "exit_p1_90pct_lp1", "perp_update_sl_t2", "perp_bot_close_all_at_4.4", "perp_bot_close_all_at_3", "perp_bot_close_all_at_5.6", "perp_bot_close_all_at_8", "perp_bot_close_all_at_2"}
 		cfg.Oracles = []*Oracle{OracleC09()}
 		if thorough {
 			cfg.Phases = []Phase{{Name: "full-depth3", Roots: roots01, Ops: ops, Depth: 3, Dev: 3}, {Name: "settlement-depth4", Roots: roots01, Ops: []string{"perp_open_long_t1", "perp_open_short_t2", "perp_open_long_t3_x5", "perp_topup_t1", "perp_close_half_t1", "perp_close_full_t2", "perp_bot_close_all", "price_atom_3", "price_atom_8", "gap_30d", "swap_in_p1_usdc_atom_L", "exit_p1_10pct_lp1"}, Depth: 4, Dev: 3}}
